@@ -210,10 +210,16 @@ def replay_lines(lines, prefix):
             subprocess.run([DRIVER], stdin=inf, stdout=mf, timeout=300)
         return trace.load_cases(prefix + ".in", prefix + ".impl", prefix + ".model"), 0
     if any(l.startswith("BC ") for l in lines):
-        # Layer B histories depend on the real threads' interleaving: the recorded case is re-checked against the model only
-        with open(prefix + ".in", "w") as f:
+        # Layer B histories: the recorded SCHEDULE is replayed action by action on the real crate (`conc --script`; the
+        # oracle suffixes are re-tapped; a step that is not enabled ends the case there), then compared with the model
+        with open(prefix + ".rin", "w") as f:
             f.write("\n".join(lines) + "\n")
-        return [], 0
+        rc, out, dt = sh([HARNESS_BIN, "conc", "--script", prefix + ".rin", "--out", prefix], timeout=300)
+        if not os.path.exists(prefix + ".in"):
+            return [], rc
+        with open(prefix + ".model", "w") as mf, open(prefix + ".in") as inf:
+            subprocess.run([DRIVER], stdin=inf, stdout=mf, timeout=300)
+        return trace.load_cases(prefix + ".in", prefix + ".impl", prefix + ".model"), rc
     rc, out, dt = sh([HARNESS_BIN, "replay", "--in", prefix + ".rin", "--out", prefix], timeout=300)
     with open(prefix + ".model", "w") as mf, open(prefix + ".in") as inf:
         subprocess.run([DRIVER], stdin=inf, stdout=mf, timeout=300)
